@@ -6,8 +6,8 @@ CONSTANTS
   MaxUid = 4
   MaxCode = 3
   NFlagSets = 2
-  SyncLit = FALSE
-  Kinds = {"SELECT", "IDLE", "NOOP", "EXPUNGE"}
+  SyncLit = TRUE
+  Kinds = {"STATUS", "APPEND", "NOOP", "SELECT", "FETCH"}
   Greetings = {"PREAUTH"}
   SimDepth = 60
   Count = FALSE
